@@ -337,7 +337,7 @@ class VLab:
         """A collection of readings."""
 
 
-class VNestedSource(DataSource):
+class VReadingSource(DataSource):
     """Source of a nested data type."""
 
     @classmethod
@@ -349,7 +349,7 @@ class VNestedSource(DataSource):
         return VLab.Reading
 
 
-class VNestedSink(DataSink[FloatDataType]):
+class VReadingSink(DataSink[FloatDataType]):
     """Sink of a nested data type."""
 
     @classmethod
@@ -361,7 +361,7 @@ class VNestedSink(DataSink[FloatDataType]):
         return VLab.Reading
 
 
-class VNestedProbe(DataProbe):
+class VReadingProbe(DataProbe):
     """Probe of a nested data type."""
 
     @classmethod
@@ -372,7 +372,7 @@ class VNestedProbe(DataProbe):
         return data.data * factor
 
 
-class VNestedOperation(DataOperation):
+class VReadingOperation(DataOperation):
     """Operation on a nested data type."""
 
     @classmethod
